@@ -204,6 +204,7 @@ type interpreter struct {
 	rangeDecided    int
 	fstarted        bool
 	locks           map[*value]*lockInfo
+	pools           map[*value][]value
 	lockEvents      int
 	atomicOps       int
 	atomicHook      func(fr *frame, p *value, write bool)
@@ -263,6 +264,7 @@ func (i *interpreter) resetPath(prefix []int) {
 	i.ranges = map[int]urange{}
 	i.pcHasF = false
 	i.locks = nil
+	i.pools = nil
 	i.atomicHook = nil
 	i.atomicLoaded = nil
 	i.known = map[int]bool{}
